@@ -46,4 +46,4 @@ Extraction "sbmodel.ml"
   buf_append buf_extend_zeros bf_size
   (* C13 C14 C15 C18 *)
   propose_takeoff propose_landing propose_landing_spec poly_max poly_min first_root root_boxes merge_boxes sign_change cauchy_bound
-  shift_poly qeval irange zpoly.
+  shift_poly qeval irange zpoly axis_bounds max_degree.
